@@ -8,6 +8,7 @@ import (
 	"io"
 	"os"
 	"sort"
+	"strings"
 	"testing"
 
 	"github.com/ipfs/go-cid"
@@ -18,6 +19,7 @@ import (
 	"github.com/ucan-wg/go-ucan/token/delegation"
 	"github.com/ucan-wg/go-ucan/token/invocation"
 
+	"verif/harness/api"
 	"verif/harness/ctr"
 	"verif/harness/h"
 	"verif/harness/keys"
@@ -28,7 +30,7 @@ import (
 var P = h.New("C18", "fault_enumeration",
 	"artefacts = sealed tokens (both types) and the four container formats holding 1..4 tokens. Read side: chunkings (1-byte reads, drawn chunk patterns, data delivered together with EOF) must not change tokens / CIDs / error-ness; at EVERY byte offset k < len an injected read error and an early EOF must make the call fail, except the computed legitimate cuts of a CAR (EOF exactly on a section boundary at or after the header, or a base64 prefix that decodes cleanly to such a CAR prefix), which must yield exactly the blocks before the cut. Write side: the Write calls of a clean run are counted (including the final base64 flush) and EVERY call index is failed (full failure, and short write with error): the call must return an error and no CID; without fault the sink must hold the buffered API's bytes (entry multisets for multi-token containers) and the CID of what was written. Non-trivial = a fault strictly inside the artefact or a chunking other than all-at-once. Distinct by (artefact, API, fault kind, position).")
 
-func TestMain(m *testing.M) { os.Exit(P.Main(m)) }
+func TestMain(m *testing.M)   { os.Exit(P.Main(m)) }
 func TestReplay(t *testing.T) { P.Replay(t) }
 
 var errInjected = errors.New("verif: injected I/O fault")
@@ -37,7 +39,8 @@ type Case struct {
 	Toks        []tok.Tok `json:"toks"`
 	Art         string    `json:"art"` // token | tokenjson | car | carb64 | cbor | cborb64
 	Typed       bool      `json:"typed,omitempty"`
-	Op          string    `json:"op"` // chunk | readfault | writefault
+	API         int       `json:"api,omitempty"` // > 0: the (API-1)-th stream entry point of harness/api for this artefact (token / tokenjson), instead of the default one
+	Op          string    `json:"op"`            // chunk | readfault | writefault
 	Chunk       []int     `json:"chunk,omitempty"`
 	DataWithEOF bool      `json:"data_with_eof,omitempty"`
 	ZeroReads   bool      `json:"zero_reads,omitempty"`
@@ -112,10 +115,10 @@ func (r *faultReader) Read(p []byte) (int, error) {
 
 // faultWriter fails the k-th Write call.
 type faultWriter struct {
-	buf   bytes.Buffer
-	calls int
+	buf    bytes.Buffer
+	calls  int
 	failAt int // -1: never
-	short bool
+	short  bool
 	failed bool
 }
 
@@ -176,6 +179,14 @@ func ctrOutcome(r container.Reader, err error) outcome {
 func readStream(cs Case, kind string, r io.Reader) outcome {
 	switch cs.Art {
 	case "token":
+		if cs.API > 0 {
+			ds := streamDecs(cs, kind)
+			t, c, err := ds[(cs.API-1)%len(ds)].F(r)
+			if err != nil {
+				return outcome{err: true}
+			}
+			return tokOutcome(t, c, err)
+		}
 		if cs.Typed {
 			if kind == "dlg" {
 				t, c, err := delegation.FromSealedReader(r)
@@ -192,6 +203,14 @@ func readStream(cs Case, kind string, r io.Reader) outcome {
 		}
 		return tokOutcome(token.FromSealedReader(r))
 	case "tokenjson":
+		if cs.API > 0 {
+			ds := streamDecs(cs, kind)
+			t, c, err := ds[(cs.API-1)%len(ds)].F(r)
+			if err != nil {
+				return outcome{err: true}
+			}
+			return tokOutcome(t, c, err)
+		}
 		t, err := token.FromDagJsonReader(r)
 		return tokOutcome(t, cid.Undef, err)
 	case "car":
@@ -205,7 +224,60 @@ func readStream(cs Case, kind string, r io.Reader) outcome {
 	}
 }
 
+// streamDec / streamEnc: the stream entry points of harness/api that apply to the artefact.
+func streamDecs(cs Case, kind string) []api.Decoder {
+	format := "cbor"
+	if cs.Art == "tokenjson" {
+		format = "json"
+	}
+	var out []api.Decoder
+	for _, d := range api.Decoders(format) {
+		if d.Stream && (d.Typed == "" || d.Typed == kind) {
+			out = append(out, d)
+		}
+	}
+	return out
+}
+
+func bufferedTwin(d api.Decoder, format string) api.Decoder {
+	want := strings.Replace(d.Name, "Reader", "", 1)
+	for _, x := range api.Decoders(format) {
+		if x.Name == want {
+			return x
+		}
+	}
+	panic("no buffered twin for " + d.Name)
+}
+
+func streamEncs(cs Case) []api.Encoder {
+	format := "cbor"
+	if cs.Art == "tokenjson" {
+		format = "json"
+	}
+	var out []api.Encoder
+	for _, e := range api.Encoders {
+		if e.Stream && e.Format == format {
+			out = append(out, e)
+		}
+	}
+	return out
+}
+
+func isTokenArt(cs Case) bool { return cs.Art == "token" || cs.Art == "tokenjson" }
+
 func readBuffered(cs Case, kind string, b []byte) outcome {
+	if cs.API > 0 && isTokenArt(cs) {
+		ds := streamDecs(cs, kind)
+		format := "cbor"
+		if cs.Art == "tokenjson" {
+			format = "json"
+		}
+		t, c, err := bufferedTwin(ds[(cs.API-1)%len(ds)], format).Bytes(b)
+		if err != nil {
+			return outcome{err: true}
+		}
+		return tokOutcome(t, c, err)
+	}
 	switch cs.Art {
 	case "token":
 		if cs.Typed {
@@ -345,6 +417,14 @@ func run(c *h.Ctx, cs Case) {
 	if cs.Typed {
 		api += "/typed"
 	}
+	if cs.API > 0 && isTokenArt(cs) {
+		ds := streamDecs(cs, b.kind)
+		api = cs.Art + "/" + ds[(cs.API-1)%len(ds)].Name
+		if cs.Op == "writefault" {
+			es := streamEncs(cs)
+			api = cs.Art + "/" + es[(cs.API-1)%len(es)].Name
+		}
+	}
 	switch cs.Op {
 	case "chunk":
 		r := &faultReader{data: art, limit: -1, chunk: cs.Chunk, dataWithEOF: cs.DataWithEOF, zeroReads: cs.ZeroReads}
@@ -416,6 +496,10 @@ func run(c *h.Ctx, cs Case) {
 }
 
 func writeStream(cs Case, b *built, w io.Writer) (cid.Cid, error) {
+	if cs.API > 0 && isTokenArt(cs) {
+		es := streamEncs(cs)
+		return es[(cs.API-1)%len(es)].F(b.tk[0], cs.Toks[0].Issuer().Key().Priv, w)
+	}
 	switch cs.Art {
 	case "token":
 		return b.tk[0].ToSealedWriter(w, cs.Toks[0].Issuer().Key().Priv)
@@ -458,7 +542,12 @@ func runWrite(c *h.Ctx, cs Case, b *built, api string) {
 	if cs.FaultKind == "" {
 		switch {
 		case cs.Art == "token":
-			if !bytes.Equal(id.Bytes(), ctr.RefCID(sink).Bytes()) {
+			hasCID := true
+			if cs.API > 0 {
+				es := streamEncs(cs)
+				hasCID = es[(cs.API-1)%len(es)].HasCID
+			}
+			if hasCID && !bytes.Equal(id.Bytes(), ctr.RefCID(sink).Bytes()) {
 				c.Fail("C18/write/cid-not-of-sink-bytes", "ToSealedWriter returned %s, the sink received bytes with CID %s", id, ctr.RefCID(sink))
 			}
 			if b.det && !bytes.Equal(sink, b.bytes) {
@@ -533,6 +622,9 @@ func draw(t *rapid.T) Case {
 		n = rapid.IntRange(1, 4).Draw(t, "ntok")
 	} else {
 		cs.Typed = cs.Art == "token" && rapid.Bool().Draw(t, "typed")
+		if rapid.Bool().Draw(t, "useapi") {
+			cs.API = rapid.IntRange(1, 12).Draw(t, "api")
+		}
 	}
 	cs.Toks = drawToks(t, n)
 	cs.Op = rapid.SampledFrom([]string{"chunk", "chunk", "readfault", "readfault", "writefault"}).Draw(t, "op")
@@ -584,11 +676,28 @@ func TestFaultEnumeration(t *testing.T) {
 			if idx%nshards != shard {
 				continue
 			}
-			for _, typed := range []bool{false, true} {
-				if typed && art != "token" {
-					continue
+			type variant struct {
+				typed bool
+				api   int
+			}
+			vs := []variant{{false, 0}}
+			if art == "token" {
+				vs = append(vs, variant{true, 0})
+			}
+			if art == "token" || art == "tokenjson" {
+				// the other stream entry points: all of them in the thorough tier, one (rotating) in the quick tier
+				n := 8
+				if h.Tier() == "quick" {
+					vs = append(vs, variant{false, 1 + idx%n})
+				} else {
+					for a := 1; a <= n; a++ {
+						vs = append(vs, variant{false, a})
+					}
 				}
-				base := Case{Toks: set, Art: art, Typed: typed}
+			}
+			for _, v := range vs {
+				typed := v.typed
+				base := Case{Toks: set, Art: art, Typed: typed, API: v.api}
 				b, ok := buildArtefact(base)
 				if !ok {
 					t.Fatalf("INCONCLUSIVE fixed artefact does not build")
